@@ -228,7 +228,7 @@ impl Scenario for TwoWorld {
 }
 
 pub fn plan(quick: bool) -> Plan {
-    let d = if quick { 5 } else { 7 };
+    let d = if quick { 7 } else { 8 };
     let t = if quick { 15.0 } else { 600.0 };
     let mut parts = vec![];
     for kind in [Hidden::SecretChannel, Hidden::InvisibleUser] {
